@@ -437,9 +437,15 @@ func executeEnumCrash(tr *Trace) (*core.Result, error) {
 			continue
 		}
 		n := counts[b]
-		for k := 0; k < n; k++ {
+		// every write event as the death of the process and, for every other history, again as an I/O error
+		variants := 1
+		if tr.Seed%2 == 0 {
+			variants = 2
+		}
+		for kv := 0; kv < n*variants; kv++ {
+			k := kv % n
 			v := base.Clone()
-			v.Blocks[b].Faults = append(v.Blocks[b].Faults, Fault{Replica: 1, Kind: "crash_commit", K: k, Exact: true})
+			v.Blocks[b].Faults = append(v.Blocks[b].Faults, Fault{Replica: 1, Kind: "crash_commit", K: k, Exact: true, IOErr: kv >= n})
 			r, err := executeOnce(v)
 			if err != nil {
 				return nil, err
